@@ -20,10 +20,10 @@ Definition getsnap : rd snap :=
   ret {| o_now := nw; o_npaces := np; o_pending := pend; o_pe := pe; o_ph := ph; o_entries := ents;
          o_cons := ck; o_cons_seq := cs; o_stop := stp; o_tfails := tf |}.
 
-Record final := { f_leak : bool; f_panic : bool; f_ended : bool; f_late_stop : bool }.
+Record final := { f_leak : bool; f_panic : bool; f_ended : bool; f_late_stop : bool; f_aliased : bool }.
 Definition getfinal : rd final :=
-  a <- getbool ;; b <- getbool ;; c <- getbool ;; d <- getbool ;;
-  ret {| f_leak := a; f_panic := b; f_ended := c; f_late_stop := d |}.
+  a <- getbool ;; b <- getbool ;; c <- getbool ;; d <- getbool ;; e <- getbool ;;
+  ret {| f_leak := a; f_panic := b; f_ended := c; f_late_stop := d; f_aliased := e |}.
 
 Record acase := { a_cfg : cfg; a_steps : list (action * snap); a_final : final }.
 Definition getcase : rd acase :=
@@ -95,7 +95,9 @@ Definition step_acc (c : cfg) (k : acc) (ao : action * snap) : acc :=
 
 Definition final_checks (k : acc) (f : final) : list verdict :=
   [ prop_ok 206 (negb (f_leak f)) []; prop_ok 207 (negb (f_panic f)) [];
-    prop_ok 208 (f_ended f) []; prop_ok 209 (negb (f_late_stop f)) [] ].
+    prop_ok 208 (f_ended f) []; prop_ok 209 (negb (f_late_stop f)) [];
+    (* a result the caller kept still is the result it received *)
+    prop_ok 210 (negb (f_aliased f)) [] ].
 
 Definition in_set (lo hi : Z) (v : verdict) : bool :=
   match v with VProp c _ => (lo <=? c) && (c <? hi) | _ => false end.
@@ -129,6 +131,14 @@ Definition check_optleak : rd verdict :=
   how <- getz ;; results <- getz ;; left <- getz ;;
   ret (prop_ok 206 (left =? 0) [how; results; left]).
 
+(* the attack command against several slow hosts: in flight at the hosts reaches max-workers
+   (one less is tolerated: the peak is sampled at the hosts) and never exceeds it *)
+Definition check_cliworkers : rd verdict :=
+  maxw <- getz ;; conns <- getz ;; hosts <- getz ;; peak <- getz ;; total <- getz ;;
+  let reach := Z.min maxw (if conns =? 0 then maxw else conns * hosts) in
+  ret (combine_verdicts [ prop_ok 301 (peak <=? maxw) [maxw; conns; peak];
+                          prop_ok 302 (reach - 1 <=? peak) [maxw; conns; peak; total] ]).
+
 Definition getcase_with (mw : Z) : rd acase :=
   iw <- getz ;; d <- getz ;; fl <- getlist getz ;;
   steps <- getlist (getpair getaction getsnap) ;; fin <- getfinal ;;
@@ -137,7 +147,7 @@ Definition getcase_with (mw : Z) : rd acase :=
 Definition check_for (lo hi : Z) : rd verdict :=
   mw <- getz ;;
   if mw =? 0 then check_cli else if mw =? -1 then check_cli2 else
-  if mw =? -2 then check_stopstress else if mw =? -3 then check_optleak else
+  if mw =? -2 then check_stopstress else if mw =? -3 then check_optleak else if mw =? -4 then check_cliworkers else
   cs <- getcase_with mw ;;
   let c := a_cfg cs in
   let k := fold_left (step_acc c) (a_steps cs) acc0 in
